@@ -62,6 +62,20 @@ inductive Tamper
   | addUnknownField   -- a member the descriptor type does not have
   deriving DecidableEq, Repr, FromJson, ToJson
 
+/-- extended signed attributes an envelope-generator plugin writes into the envelope (it names no
+verification plugin) -/
+inductive ExtAttrs
+  | none                    -- no extended attribute
+  | nonCritical             -- one attribute, not critical (e.g. a KMS key version)
+  | severalNonCritical      -- several, none critical
+  | critical                -- one attribute marked critical: nobody can process it
+  | criticalAndNonCritical
+  deriving DecidableEq, Repr, FromJson, ToJson
+
+def ExtAttrs.hasCritical : ExtAttrs → Bool
+  | .critical | .criticalAndNonCritical => true
+  | _ => false
+
 /-- how the key behind the signer object was selected for this call -/
 inductive KeyVia
   | fixed          -- the signer object is bound to the key (local signers)
@@ -154,6 +168,8 @@ structure Input where
   tamper : Tamper             -- envelope plugin only: what the plugin does to the payload
   envelopeLastByte : Option Nat  -- blob: the harness signed until the envelope ended in this byte (must not matter)
   trailingNewline : Bool      -- blob, JWS: a line break is appended to the envelope before verification (must not matter)
+  extAttrs : ExtAttrs         -- envelope plugin only: the extended signed attributes the plugin adds
+  timeZone : String           -- time.Local of the signing process (IANA name; must not matter: expiry is an instant)
   deriving Repr, FromJson, ToJson
 
 structure Obs where
@@ -257,6 +273,7 @@ structure Protected where
   payload : DescObs           -- content of the payload `{"targetArtifact": …}`
   signingTime : Int           -- seconds
   expiry : Option Int         -- seconds
+  ext : ExtAttrs              -- extended signed attributes
   deriving DecidableEq, Repr
 
 /-- what the signature primitive is computed over, and with which hash -/
@@ -406,11 +423,14 @@ def payloadDescriptorValid (orig : FullDesc) (signed : DescObs) : Bool :=
 /-- the protected attributes of the envelope: signature/internal/base truncates signing time
 and expiry to seconds; the envelope plugin receives whole seconds
 (`uint64(opts.ExpiryDuration / time.Second)`) and adds them to its own clock -/
-def protectedAttrs (alg : String) (payload : DescObs) (envelopePlugin : Bool) (durationNs nowNs : Int) : Protected :=
+def protectedAttrs (alg : String) (payload : DescObs) (envelopePlugin : Bool) (durationNs nowNs : Int)
+    (ext : ExtAttrs) : Protected :=
   let dur : Int := if envelopePlugin then (durationNs / 1000000000) * 1000000000 else durationNs
   { alg := alg, payloadType := payloadTypeV1, payload := payload,
     signingTime := nowNs / 1000000000,
-    expiry := if dur ≠ 0 then some ((nowNs + dur) / 1000000000) else none }
+    expiry := if dur ≠ 0 then some ((nowNs + dur) / 1000000000) else none,
+    -- only an envelope plugin builds the envelope itself and can add attributes of its own
+    ext := if envelopePlugin then ext else .none }
 
 /-- `Signer.Sign(ctx, desc, opts)` for the four signers. `nowNs` is the signing clock. -/
 def signDesc (C : Crypto) (key : C.Key) (i : Input) (ks : String × Nat) (nowNs : Int) (d : FullDesc) :
@@ -421,7 +441,7 @@ def signDesc (C : Crypto) (key : C.Key) (i : Input) (ks : String × Nat) (nowNs 
   let payload := if envelopePlugin then tamperPayload i.tamper given else given
   match headerAlg i.signer i.keySpec ks, primitiveHash i.signer i.keySpec ks with
   | some alg, some h =>
-    let attrs := protectedAttrs alg payload envelopePlugin i.durationNs nowNs
+    let attrs := protectedAttrs alg payload envelopePlugin i.durationNs nowNs i.extAttrs
     let e : Envelope C :=
       { format := i.format, attrs := attrs, agent := i.agent, signer := C.pub key, sig := C.sign key ⟨h, attrs⟩ }
     -- the generated signature is verified before it is returned
@@ -482,7 +502,10 @@ def processSignature {C : Crypto} (trust : C.Pub → Bool) (nowSec : Int) (e : E
   e.integrity && e.attrs.payloadType == payloadTypeV1 && trust e.signer &&
   (match e.attrs.expiry with
    | some x => decide (nowSec < x)
-   | none => true)
+   | none => true) &&
+  -- the signature names no verification plugin: a CRITICAL extended attribute cannot be processed by anybody
+  -- (a non-critical one is simply ignored)
+  !e.attrs.ext.hasCritical
 
 /-- the metadata the caller of the verification API requires -/
 def wantedMetadata (i : Input) : List KV :=
@@ -683,6 +706,12 @@ def expectedPayload (i : Input) : DescObs :=
 def consistentVerify (i : Input) : Bool :=
   i.verifyMetadata != .wrong && (i.kind == .oci || i.verifyMediaType != .other)
 
+/-- the extended attributes that end up in the envelope -/
+def effectiveExt (i : Input) : ExtAttrs := if i.signer == .pluginEnvelope then i.extAttrs else .none
+
+/-- the envelope carries a critical extended attribute nobody processes (no verification plugin is named) -/
+def unprocessedCritical (i : Input) : Bool := (effectiveExt i).hasCritical
+
 /-- the signature has expired when it is verified -/
 def expiredAtVerify (i : Input) : Bool :=
   decide (i.durationNs ≠ 0) && decide (i.durationNs / 1000000000 ≤ i.lagSec)
@@ -690,7 +719,9 @@ def expiredAtVerify (i : Input) : Bool :=
 def clauses (i : Input) (o : Obs) : Clauses :=
   [ ("input_well_formed", wf i),
     ("signs_iff_arguments_legal", o.signed == legal i),
-    ("signed_then_verifies", !(o.signed && consistentVerify i && !expiredAtVerify i) || o.verified),
+    ("signed_then_verifies",
+      !(o.signed && consistentVerify i && !expiredAtVerify i && !unprocessedCritical i) || o.verified),
+    ("unprocessed_critical_attribute_fails", !(o.signed && unprocessedCritical i) || !o.verified),
     ("verified_only_if_signed", !o.verified || o.signed),
     ("payload_is_sanitised_descriptor_with_metadata",
       o.payload == if o.signed then some (expectedPayload i) else none),
